@@ -9,13 +9,13 @@ TB = ("Lean 4.33.0 kernel and the axioms propext/Classical.choice/Quot.sound (au
 
 CHECKS = {
  # id: (category, text, technique, design_ref, extra note)
- 'C04': ('proof', 'Theorems (all six Int arguments): nSec is valid, denotes exactly the unnormalised instant, is unique; align/constructor specs; no-overflow inside the representability bound. '
+ 'C04': ('proof', 'Theorems (all six Int arguments): nSec is valid, denotes exactly the unnormalised instant, is unique; align/constructor specs; no-overflow inside the representability bound; alignment casts are monotone, idempotent, floors of the second count, T(f) <= f < T(f)+1 (C04Align). '
          'Tie: 4.6e5 (quick) constructor calls incl. every day of the 400-year cycle, model vs real code vs Python calendar oracle, UB flag compared with UBSan.',
          'Lean 4 theorems about an executable model + differential correspondence with the C++', '§6 C04'),
- 'C05': ('proof', 'Theorems: add/sub move by exactly n units, difference is exact, the two are inverse, comparison is the calendar order, no avoidable overflow. '
-         'Tie: 3.5e5 (quick) add/sub/diff/cmp ops on all six alignments incl. int64 extremes; inverse laws evaluated on the implementation.',
+ 'C05': ('proof', 'Theorems: add/sub move by exactly n units, difference is exact, the two are inverse, comparison is the calendar order, no avoidable overflow; the algebra of chained steps (associativity, cancellation, difference chain rule, monotonicity: C05Algebra). '
+         'Tie: 3.5e5 (quick) add/sub/diff/cmp ops on all six alignments incl. int64 extremes; inverse laws and chained steps evaluated on the implementation.',
          'Lean 4 theorems about an executable model + differential correspondence with the C++', '§6 C05'),
- 'C17': ('proof', 'Theorems: get_weekday = calendar weekday for every valid date in every year; get_yearday ordinal; next/prev_weekday nearest strictly later/earlier day, 1..7 days, table walks in range. '
+ 'C17': ('proof', 'Theorems: get_weekday = calendar weekday for every valid date in every year; get_yearday ordinal; next/prev_weekday nearest strictly later/earlier day, 1..7 days, table walks in range; the documented idioms next_weekday(d-1,wd) / prev_weekday(d+1,wd) = first/last wd on or after/before d, get_weekday of the result (C17Idiom). '
          'Tie: exhaustive 146097-day cycle, model vs real code vs Python oracle.',
          'Lean 4 theorems (periodicity + omega) + exhaustive-cycle correspondence', '§6 C17'),
  'C15': ('proof', 'Theorems: canonical name/abbreviation for every offset, name round trip, FixedOffsetFromName accepts exactly UTC, UTC0 and the shape (for every byte string), extracted constants = documented. '
@@ -24,7 +24,7 @@ CHECKS = {
  'C16': ('proof', 'Theorems: parsePosixSpec s = some r <-> IsPosixSpec s r (declarative grammar) for every byte string; every field read later is determined; documented defaults. '
          'Tie: 1.8e5 grammar sentences / mutations / random strings, parser run twice on differently pre-filled objects, vs model vs reference recogniser.',
          'Lean 4 iff-theorem against a declarative grammar + differential correspondence', '§6 C16'),
- 'C18': ('proof', 'Theorems: split_seconds = floor and exact decomposition; join into whole-second-or-coarser ticks = floor with range check; femtosecond remainder exact. '
+ 'C18': ('proof', 'Theorems: split_seconds = floor and exact decomposition; join into whole-second-or-coarser ticks = floor with range check; femtosecond remainder exact; join into sub-second ticks = floor of the fraction, split -> join round trip for every tick count (C18Join). '
          'Tie: 3.9e5 template instantiations over the panel of duration types, vs exact rational arithmetic.',
          'Lean 4 theorems + differential correspondence (libstdc++ duration_cast modelled by the standard formula)', '§6 C18'),
  'C01': ('proof', 'PARTIAL: model of the TZif loader, ExtendTransitions and BreakTime tied to the real code (0 disagreements) and to an independent TZif reader + POSIX-rule evaluator; theorems listed in the evidence. '
